@@ -315,6 +315,13 @@ func (w *GunWorld) ShotCount() int {
 	return len(w.Shots)
 }
 
+// ShotsSnapshot returns the finished shots recorded so far (safe while shots may still be in progress).
+func (w *GunWorld) ShotsSnapshot() []ShotRec {
+	w.mu.Lock()
+	defer w.mu.Unlock()
+	return append([]ShotRec(nil), w.Shots...)
+}
+
 func NewGunWorld(p GunPlan) *GunWorld {
 	return &GunWorld{Plan: p, FaultReached: map[string]bool{}}
 }
